@@ -293,7 +293,7 @@ def event_script(sim):
     pending_start = False
     while i < n:
         line, kind, real = sim.lines[i], sim.kinds[i], sim.real[i]
-        if kind in ("dump", "prob"):
+        if kind in ("dump", "prob", "lz"):
             i += 1
             continue
         if kind == "initiate":
@@ -325,7 +325,7 @@ def event_script(sim):
                 break
             # the next op that is not a dump
             j = i + 1
-            while j < n and sim.kinds[j] in ("dump", "prob"):
+            while j < n and sim.kinds[j] in ("dump", "prob", "lz"):
                 j += 1
             body = " ".join(t[2:])     # status k <lists>
             if j < n and sim.kinds[j] == "prep":
